@@ -570,8 +570,9 @@ def run_text(ck):
         viol = [x for x in viol if x not in redo] + v
         sem = [x for x in sem if x[0] not in redo] + w
     byid = {c["id"]: c for c in cases}
-    codes = {1: "outcome class (statement / error / panic)", 2: "SQL text of the model's plan", 3: "object tree does not print to the observed text", 4: "library values"}
-    for code in (1, 2, 3, 4):
+    codes = {1: "outcome class (statement / error / panic)", 2: "SQL text of the model's plan", 3: "object tree does not print to the observed text", 4: "library values",
+             5: "numeric literals as printed parse back to the query's numbers"}
+    for code in (1, 2, 3, 4, 5):
         ids = [i for i, cd in mism if cd == code]
         ck.obligation("correspondence on %d queries: %s" % (len(usable), codes[code]), not ids,
                       "ids %s e.g. %r" % (ids[:8], qtext(byid[ids[0]]) if ids else ""))
@@ -582,7 +583,7 @@ def run(ck):
     ck.trusted += [
         "C11: the participle parser is not modelled: the model starts from the tree the real parser built (dumped by the harness)",
         "C11: TraceqlSem.v's evaluator is a model of the ClickHouse subset the planners emit (no ClickHouse binary here): WHERE/GROUP BY/HAVING/ORDER BY/LIMIT, any/max/groupArray/groupBitOr/anyIf/avgIf.., bitShiftLeft/bitAnd, toFloat64OrNull, match, INTERSECT/UNION ALL, ARRAY JOIN; Float64 as exact rationals",
-        "C11: strconv.ParseFloat+%f, time.ParseDuration and json unquoting are modelled on a stated domain (<=15 digits, <=6 decimals; plain ASCII) and taken from the Go library (called by the harness) outside it",
+        "C11: strconv.ParseFloat+FloatVal.String (FormatFloat 'f' -1), time.ParseDuration and json unquoting are modelled on a stated domain (<=15 significant digits; plain ASCII) and taken from the Go library (called by the harness) outside it",
     ]
     ck.coq_props()
     okm, out = ck.coq_make(["model/TraceqlCase.vo"])
@@ -603,7 +604,6 @@ def run(ck):
     # semantic oracle: the implementation's statement, evaluated over generated attribute-index contents, against the meaning of the script
     judged = [c for c in usable if c.get("dbs")]
     bad = [(i, cd) for i, cd in sem if cd in (1, 2)]
-    rounded = [i for i, cd in sem if cd == 3]
     ck.obligation("semantic oracle: on %d searches x %d generated databases the statement selects the traces and spans the script describes" % (
         len(judged), ck.n(2, 4)), not bad, "ids %s e.g. %r" % (bad[:8], qtext(byid[bad[0][0]]) if bad else ""))
     if bad:
@@ -620,15 +620,7 @@ def run(ck):
         ck.violation({"property": "C11", "kind": "model/implementation disagree; both oracles accept the implementation's statements on the generated databases",
                       "query": qtext(byid[i]), "codes": [cd for j, cd in mism if j == i],
                       "case": {k: byid[i][k] for k in ("q", "mode", "key", "ctx", "calls")}}, no_input=True)
-    if rounded:
-        fid = "float-literal-6-decimals"
-        if fid in ck.known_findings():
-            ck.report_known(fid, "%d generated searches with a numeric literal of more than six decimals select by the rounded literal, e.g. %r" % (
-                len(rounded), qtext(byid[min(rounded, key=lambda i: len(byid[i]["q"]))])))
-        else:
-            w = byid[min(rounded, key=lambda i: len(byid[i]["q"]))]
-            ck.violation({"property": "C11", "kind": "numeric literal reaches ClickHouse rounded to six decimals", "query": qtext(w), "databases": w["dbs"], "ctx": w["ctx"]})
-    ck.extra["semantic_oracle"] = {"searches_judged": len(judged), "databases_each": ck.n(2, 4), "disagree": len(bad), "rounded_literal_only": len(rounded)}
+    ck.extra["semantic_oracle"] = {"searches_judged": len(judged), "databases_each": ck.n(2, 4), "disagree": len(bad)}
     hist = {}
     distinct = set()
     for c in cases:
